@@ -60,22 +60,32 @@ Fixpoint cfinal (fuel : nat) (s : pst) (inp : list tok) : pst :=
   end.
 End Final.
 
+Section ParseTab.
+(* the same with the table given as a function (the extracted oracle memoises it) *)
+Variables (tab : table) (obj : bool) (g : grammar) (act : semact) (fuel : nat).
+Definition init_b (s : pst) : pst := if obj then init_object s else init_global s.
+Definition parse_from_tab (s : pst) (inp : list tok) : result := crun tab g act fuel (init_b s) inp 0 [].
+Definition state_after_tab (s : pst) (inp : list tok) : pst := cfinal tab g act fuel (init_b s) inp.
+Fixpoint history_tab (s : pst) (inps : list (list tok)) : list result :=
+  match inps with
+  | [] => []
+  | inp :: rest => parse_from_tab s inp :: history_tab (state_after_tab s inp) rest
+  end.
+End ParseTab.
+
 Section Parse.
 Variables (v : variant) (t : tables) (g : grammar) (act : semact) (fuel : nat).
 
 (* one call:  ParserInit(); Parser(input)  on a parser in state s *)
 Definition parse_from (s : pst) (inp : list tok) : result :=
-  crun (table_of v t) g act fuel (init_of v s) inp 0 [].
+  parse_from_tab (table_of v t) (is_object v) g act fuel s inp.
 Definition state_after (s : pst) (inp : list tok) : pst :=
-  cfinal (table_of v t) g act fuel (init_of v s) inp.
+  state_after_tab (table_of v t) (is_object v) g act fuel s inp.
 Definition parse (inp : list tok) : result := parse_from {| stk := []; sp := 0 |} inp.
 
 (* a history: the same parser object is re-initialised and used for each input in turn *)
-Fixpoint history (s : pst) (inps : list (list tok)) : list result :=
-  match inps with
-  | [] => []
-  | inp :: rest => parse_from s inp :: history (state_after s inp) rest
-  end.
+Definition history (s : pst) (inps : list (list tok)) : list result :=
+  history_tab (table_of v t) (is_object v) g act fuel s inps.
 End Parse.
 
 (* semantic actions of the correspondence harness:  $$ = (c + sum coef_i * $i) mod M *)
